@@ -326,3 +326,14 @@ func genJSON(rt *rapid.T, depth int) *jnode {
 		return n
 	}
 }
+
+// genJSONObject draws a JSON object with at least two members at the top level (so that member order exists).
+func genJSONObject(rt *rapid.T, depth int) *jnode {
+	n := &jnode{kind: 'o'}
+	keys := rapid.SliceOfNDistinct(rapid.SampledFrom([]string{"a", "b", "B", "aa", "z", "_", "é", "k\"", "10", "9", ""}), 2, 5, rapid.ID[string]).Draw(rt, "topKeys")
+	for _, k := range keys {
+		n.keys = append(n.keys, k)
+		n.vals = append(n.vals, genJSON(rt, depth-1))
+	}
+	return n
+}
